@@ -106,8 +106,15 @@ class Ctx(object):
             pass
         self.explore_stats = stats
         if errors:
-            raise CheckerError('%d path(s) left the supported subset or crashed; first: %s'
-                               % (len(errors), errors[0]))
+            # a refuted obligation found on another path stands on its own: it is reported (exit 1);
+            # without one, paths outside the supported subset mean "cannot verify" (exit 3)
+            self.path_errors = list(errors)
+            if not any(r.verdict == 'refuted' for r in records):
+                raise CheckerError('%d path(s) left the supported subset or crashed; first: %s'
+                                   % (len(errors), errors[0]))
+            print('NOTE property=%s %d path(s) left the supported subset (first: %s); reporting the refuted '
+                  'obligations found on the other paths' % (self.pid, len(errors), errors[0][:300]))
+            return
         # vacuity guards
         labels = {}
         for rec in records:
@@ -333,6 +340,10 @@ def main(argv=None):
             tail = '' if reproduced else ' no-failing-input-found'
             print('VIOLATION property=%s replay=%s obligation=%s%s' % (pid, path, name, tail))
         rc = 1
+    elif getattr(ctx, 'path_errors', None):
+        print('CHECKER-ERROR property=%s %d path(s) left the supported subset or crashed; first: %s'
+              % (pid, len(ctx.path_errors), ctx.path_errors[0]))
+        rc = 3
     elif failed_audits:
         for a in failed_audits:
             print('AUDIT-FAILED property=%s %s: %s' % (pid, a[0], a[2]))
